@@ -1,6 +1,49 @@
+import Okane.Drv.C01
+import Okane.Drv.C02
+import Okane.Drv.C03
+import Okane.Drv.C04
+import Okane.Drv.C05
+import Okane.Drv.C06
+import Okane.Drv.C07
+import Okane.Drv.C08
+import Okane.Drv.C09
+import Okane.Drv.C10
+import Okane.Drv.C11
+import Okane.Drv.C12
+import Okane.Drv.C13
+import Okane.Drv.C14
+import Okane.Drv.C15
+import Okane.Drv.C16
+import Okane.Drv.C17
+import Okane.Drv.C18
+import Okane.Drv.C19
 import Okane.Drv.C20
+import Okane.Drv.Process
 
+/-- `drv <command> [args]`: cases on stdin, one per line; results on stdout, one per line.
+`cNN` dispatches to the property's own driver module (`Okane/Drv/CNN.lean`), which may use `args`
+to select among several streams. -/
 def main (args : List String) : IO UInt32 := do
   match args with
-  | "c20" :: _ => Okane.Drv.C20.main; return 0
-  | _ => IO.eprintln "usage: drv <command>  (cases on stdin)"; return 2
+  | "c01" :: rest => Okane.Drv.C01.main rest; return 0
+  | "c02" :: rest => Okane.Drv.C02.main rest; return 0
+  | "c03" :: rest => Okane.Drv.C03.main rest; return 0
+  | "c04" :: rest => Okane.Drv.C04.main rest; return 0
+  | "c05" :: rest => Okane.Drv.C05.main rest; return 0
+  | "c06" :: rest => Okane.Drv.C06.main rest; return 0
+  | "c07" :: rest => Okane.Drv.C07.main rest; return 0
+  | "c08" :: rest => Okane.Drv.C08.main rest; return 0
+  | "c09" :: rest => Okane.Drv.C09.main rest; return 0
+  | "c10" :: rest => Okane.Drv.C10.main rest; return 0
+  | "c11" :: rest => Okane.Drv.C11.main rest; return 0
+  | "c12" :: rest => Okane.Drv.C12.main rest; return 0
+  | "c13" :: rest => Okane.Drv.C13.main rest; return 0
+  | "c14" :: rest => Okane.Drv.C14.main rest; return 0
+  | "c15" :: rest => Okane.Drv.C15.main rest; return 0
+  | "c16" :: rest => Okane.Drv.C16.main rest; return 0
+  | "c17" :: rest => Okane.Drv.C17.main rest; return 0
+  | "c18" :: rest => Okane.Drv.C18.main rest; return 0
+  | "c19" :: rest => Okane.Drv.C19.main rest; return 0
+  | "c20" :: rest => Okane.Drv.C20.main rest; return 0
+  | "process" :: _ => Okane.Drv.Process.main; return 0
+  | _ => IO.eprintln "usage: drv <command> [args]  (cases on stdin)"; return 2
